@@ -61,7 +61,13 @@ def run_case(bib, kv, op, inplace, history=False):
         return {"ctor": False, "raised": False, "out": [], "idem": True, "others": True}
     except Exception as e:
         return {"ctor": True, "raised": True, "out": [], "idem": True, "others": True, "exc": type(e).__name__}
-    target = M.Entry("article", "Key1", [M.Field(k, v, i) for i, (k, v) in enumerate(kv)], start_line=3, raw="raw1")
+    # start lines do not follow the field order (fields merged in from elsewhere have other lines or none), and every field
+    # got its key by assignment after it was built: order and keys are what the entry holds NOW
+    def mk(i, k, v):
+        f = M.Field("Placeholder" + k.swapcase(), v, [None, 50 - i, 7, i][(i + len(kv)) % 4])
+        f.key = k
+        return f
+    target = M.Entry("article", "Key1", [mk(i, k, v) for i, (k, v) in enumerate(kv)], start_line=3, raw="raw1")
     other = M.Entry("book", "zz", [M.Field("b", "1"), M.Field("A", "2"), M.Field("a", "3")], start_line=9, raw="raw2")
     dfk = M.DuplicateFieldKeyBlock({"b"}, M.Entry("misc", "dfk", [M.Field("b", "1"), M.Field("A", "2"), M.Field("b", "3"), M.Field("a", "4")], start_line=7, raw="raw3"))
     sub = _SubEntry("article", "sub", [M.Field(k, v, i) for i, (k, v) in enumerate(kv)], start_line=11, raw="raw4") if _SubEntry else None
@@ -82,7 +88,7 @@ def run_case(bib, kv, op, inplace, history=False):
             pass
         target = lib.blocks[1]
         target.entry_type = "article"
-        target.fields = [M.Field(k, v, i) for i, (k, v) in enumerate(kv)]
+        target.fields = [mk(i, k, v) for i, (k, v) in enumerate(kv)]
     if sub is not None:
         # an entry of an application-defined subclass of Entry holding the same fields: it is an entry like any other
         lib.blocks[5].fields = [M.Field(k, v, i) for i, (k, v) in enumerate(kv)]
